@@ -44,7 +44,8 @@ def gen_invalid_read(rng, p):
         bad = list(rng.randrange(d) for d in ds)
         bad[rng.randrange(len(bad))] = ds[0] * ds[-1] * 3 + 7 if len(ds) == 1 else max(ds) + 5
         if s.kind == "atomic" and s.typ == "DWORD":
-            bad = [32 * total + rng.choice([0, 1, 40])]
+            # (far beyond the array: the number of 32-bit words to ask for no longer fits the request's count field)
+            bad = [32 * total + rng.choice([0, 1, 40, 2097120 - 32 * total, 2097152, 10 ** 9])]
         return name + "[" + ",".join(map(str, bad)) + "]", "index out of range"
     if ndim:
         if s.kind == "atomic" and s.typ == "DWORD":
